@@ -409,6 +409,10 @@ static bool ReplayOne(const json &beh, Mismatch &mm, long &checks)
         {
           scopes.erase(st.at("c").get<int>());
         }
+        else if (op == "End")
+        {
+          // closing no-op step of a generated behaviour: only the observations are compared
+        }
         else
         {
           fail("harness: unknown op " + op, nullptr, nullptr);
